@@ -63,6 +63,7 @@ type ExternContract struct {
 	Pkg      string // package directory whose overlay carries the spec functions ("" = root)
 	Key      string
 	Sig      string
+	ClockReads, ClockAdvances bool
 	Pure     bool
 	ByValue  bool // pure function of the pointees of its pointer arguments (interior pointers allowed)
 	Fresh    bool
@@ -77,6 +78,9 @@ type ExternContract struct {
 
 func (ec *ExternContract) modSet() ModSet {
 	ms := ModSet{}
+	if ec.ClockAdvances {
+		ms["GH:clock"] = types.Typ[types.Int]
+	}
 	for _, m := range ec.Modifies {
 		switch {
 		case m == "*":
@@ -141,9 +145,30 @@ type ContractSet struct {
 
 // DispatchCheck: a structural obligation decided by go/types on every run.
 type DispatchCheck struct {
+	Kind                    string // "" (promoted member), "receiver" (pointer receiver), "shape" (struct fields and tags)
 	Pkg, Type, Method, From string
 	Tags                    []string
 	File                    string
+}
+
+func (dc *DispatchCheck) obName() string {
+	switch dc.Kind {
+	case "receiver":
+		return fmt.Sprintf("%s.%s#receiver:%s", pkgShort(dc.Pkg), dc.Type, dc.Method)
+	case "shape":
+		return fmt.Sprintf("%s.%s#shape", pkgShort(dc.Pkg), dc.Type)
+	}
+	return fmt.Sprintf("%s.%s#dispatch:%s", pkgShort(dc.Pkg), dc.Type, dc.Method)
+}
+
+func (dc *DispatchCheck) describe() string {
+	switch dc.Kind {
+	case "receiver":
+		return fmt.Sprintf("%s.%s has a pointer receiver", dc.Type, dc.Method)
+	case "shape":
+		return fmt.Sprintf("struct %s has the recorded fields, types and tags", dc.Type)
+	}
+	return fmt.Sprintf("%s.%s is the member promoted from the embedded %s", dc.Type, dc.Method, dc.From)
 }
 
 // holds reports whether Type's method set (value and pointer) selects Method through the embedded field From.
@@ -160,13 +185,49 @@ func (dc *DispatchCheck) holds(l *Loaded) (bool, string) {
 	if tn == nil {
 		return false, "type " + dc.Type + " not found"
 	}
-	obj, index, _ := types.LookupFieldOrMethod(tn.Type(), true, p.Types, dc.Method)
-	fn, ok := obj.(*types.Func)
-	if !ok {
-		return false, "no method " + dc.Method
+	if dc.Kind == "shape" {
+		want := loadTypeBaseline()[dc.Pkg][dc.Type]
+		got := structShapes[filepath.Join(repoDir, dc.Pkg)][dc.Type]
+		if want == nil {
+			return false, "no recorded shape for " + dc.Type + " (baseline/types.json)"
+		}
+		if strings.Join(want, "\n") != strings.Join(got, "\n") {
+			for i := 0; i < len(want) || i < len(got); i++ {
+				w, g := "", ""
+				if i < len(want) {
+					w = want[i]
+				}
+				if i < len(got) {
+					g = got[i]
+				}
+				if w != g {
+					return false, fmt.Sprintf("struct %s: field %d is now %q, recorded %q", dc.Type, i, g, w)
+				}
+			}
+		}
+		return true, ""
 	}
+	obj, index, _ := types.LookupFieldOrMethod(tn.Type(), true, p.Types, dc.Method)
+	if dc.Kind == "receiver" {
+		fn, ok := obj.(*types.Func)
+		if !ok {
+			return false, "no method " + dc.Method
+		}
+		recv := fn.Type().(*types.Signature).Recv()
+		if recv == nil {
+			return false, dc.Method + " has no receiver"
+		}
+		if _, isPtr := recv.Type().(*types.Pointer); !isPtr {
+			return false, fmt.Sprintf("%s.%s is declared with a value receiver (%s): it acts on a copy of the object it is called on", dc.Type, dc.Method, l.Prog.Fset.Position(fn.Pos()))
+		}
+		return true, ""
+	}
+	if obj == nil {
+		return false, "no member " + dc.Method
+	}
+	fn := obj
 	if len(index) < 2 {
-		return false, fmt.Sprintf("%s.%s is declared on %s itself (%s): it replaces the method promoted from %s", dc.Type, dc.Method, dc.Type, l.Prog.Fset.Position(fn.Pos()), dc.From)
+		return false, fmt.Sprintf("%s.%s is declared on %s itself (%s): it replaces the one promoted from %s", dc.Type, dc.Method, dc.Type, l.Prog.Fset.Position(fn.Pos()), dc.From)
 	}
 	st, ok := tn.Type().Underlying().(*types.Struct)
 	if !ok || index[0] >= st.NumFields() || st.Field(index[0]).Name() != dc.From {
@@ -312,6 +373,24 @@ func (cs *ContractSet) parseFile(path, pkgDir string, extern bool) {
 				continue
 			}
 			cs.globalInvs = append(cs.globalInvs, &GlobalInv{Label: lm[1], Text: lm[2], Pkg: pkgDir, Checked: word == "globalinv", File: where})
+		case word == "receiver" || strings.HasPrefix(word, "receiver[") || word == "xmlshape" || strings.HasPrefix(word, "xmlshape["):
+			// receiver[tags] Type.Method pointer   -- the method is declared on *Type (it acts on the caller's object, not a copy)
+			// xmlshape[tags] Type                  -- the struct's fields, their types and tags are the recorded ones: the
+			//                                         assumed behaviour of encoding/xml and encoding/json is relative to them
+			f := strings.Fields(rest)
+			tags := ""
+			if i := strings.Index(word, "["); i >= 0 {
+				tags = word[i:]
+			}
+			switch {
+			case strings.HasPrefix(word, "receiver") && len(f) == 2 && f[1] == "pointer" && strings.Contains(f[0], "."):
+				i := strings.Index(f[0], ".")
+				cs.dispatch = append(cs.dispatch, &DispatchCheck{Kind: "receiver", Pkg: pkgDir, Type: f[0][:i], Method: f[0][i+1:], Tags: parseTags(tags), File: where})
+			case strings.HasPrefix(word, "xmlshape") && len(f) == 1:
+				cs.dispatch = append(cs.dispatch, &DispatchCheck{Kind: "shape", Pkg: pkgDir, Type: f[0], Tags: parseTags(tags), File: where})
+			default:
+				cs.errs = append(cs.errs, where+": expected `receiver Type.Method pointer` or `xmlshape Type`")
+			}
 		case word == "dispatch" || strings.HasPrefix(word, "dispatch["):
 			// dispatch[tags] Type.Method promoted Embedded -- the method a dependency calls back through an interface is the one
 			// promoted from that embedded field (so that the assumed contract of the dependency describes what really runs)
@@ -377,6 +456,11 @@ func (cs *ContractSet) parseFile(path, pkgDir string, extern bool) {
 			curExt.ByValue = rest == "byvalue"
 		case word == "fresh" && curExt != nil:
 			curExt.Fresh = true
+		case word == "clock" && curExt != nil:
+			// clock reads    -- the result is a reading of the clock: a function of the arguments and of the ghost epoch
+			// clock advances -- the call may take time (network, sleep): the ghost epoch moves on
+			curExt.ClockReads = rest == "reads"
+			curExt.ClockAdvances = rest == "advances"
 		case word == "modifies" && curExt != nil:
 			curExt.Modifies = append(curExt.Modifies, rest)
 		case word == "arith" && cur != nil:
@@ -687,6 +771,9 @@ type funcSig struct {
 // re-binding of contracts of renamed functions only)
 var structFields = map[string]map[string]map[string]string{}
 
+// structShapes: struct type name -> its fields in order, each as "Name Type `tag`" (embedded: "Type `tag`"), per scanned directory
+var structShapes = map[string]map[string][]string{}
+
 func exprString(fset *token.FileSet, e ast.Expr) string {
 	var b bytes.Buffer
 	printer.Fprint(&b, fset, e)
@@ -737,12 +824,25 @@ func scanPackage(dir string) (map[string]*funcSig, []importSpec, error) {
 						structFields[dir] = map[string]map[string]string{}
 					}
 					fm := map[string]string{}
+					var shape []string
 					for _, fl := range stt.Fields.List {
+						tag := ""
+						if fl.Tag != nil {
+							tag = " " + fl.Tag.Value
+						}
 						for _, nm := range fl.Names {
 							fm[nm.Name] = exprString(fset, fl.Type)
+							shape = append(shape, nm.Name+" "+exprString(fset, fl.Type)+tag)
+						}
+						if len(fl.Names) == 0 {
+							shape = append(shape, exprString(fset, fl.Type)+tag)
 						}
 					}
 					structFields[dir][ts.Name.Name] = fm
+					if structShapes[dir] == nil {
+						structShapes[dir] = map[string][]string{}
+					}
+					structShapes[dir][ts.Name.Name] = shape
 				}
 			}
 			fd, ok := d.(*ast.FuncDecl)
